@@ -10,7 +10,7 @@ mkdir -p "$KEEP"
 for p in $PROPS; do
   for tier in quick thorough; do
     start=$(date +%s)
-    VERIF_KEEP="$KEEP/$p" ./vcheck $p $tier > "$KEEP/$p.$tier.log" 2>&1
+    VERIF_KEEP="$KEEP/$p.$tier" ./vcheck $p $tier > "$KEEP/$p.$tier.log" 2>&1
     rc=$?
     echo "$p $tier exit=$rc $(( $(date +%s) - start ))s $(grep -c '^VIOLATION' "$KEEP/$p.$tier.log") violation lines" | tee -a "$KEEP/summary.txt"
     cp evidence/$p.json "$KEEP/$p.$tier.evidence.json" 2>/dev/null
